@@ -167,7 +167,7 @@ def run(ctx):
         "TLC explores the dispatcher model exhaustively (invariants), enumerates every operation sequence of length "
         "Depth over a reduced menu and random longer behaviours (-simulate); each behaviour is replayed on a fresh "
         "EventDispatcher and compared step by step; seeded random sequences (<= 40 ops, also through ApplicationConfig."
-        "add_event_listener) are validated by DispatcherTrace.  Non-trivial: the sequence dispatches an event after a "
+        "add_event_listener; payloads none / Event / ConfigEvent / PreResolveEvent / PreHandleEvent) are validated by DispatcherTrace.  Non-trivial: the sequence dispatches an event after a "
         "registration that follows an earlier dispatch/get of the same event, or holds >= 2 listeners of one event"
     )
     ctx.assumptions += ["each registration uses a distinct callable", "a listener registered by a listener during a dispatch takes part from the next dispatch on (registrations 'so far' = at the start of the dispatch); listeners registered that way do not register further ones"]
